@@ -44,7 +44,7 @@ PROPS = {
     "C14": {
         "level": "proof",
         "lean_modules": _MODS + ["Astria.Properties.C14"],
-        "theorems": ["Astria.C14_mirror", "Astria.C14_mirror_pre_aspen", "Astria.C14_accepted_batch_mirrors",
+        "theorems": ["Astria.C14_mirror", "Astria.C14_mirror_pre_aspen", "Astria.C14_aspen_migration_preserves", "Astria.C14_accepted_batch_mirrors",
                      "Astria.C14_add_then_remove_counterexample", "Astria.C14_double_removal_counterexample"],
         "harnesses": ["ledger"],
         "monitors": ["validator_mirror", "validator_updates_applicable", "dump_parse"],
@@ -54,8 +54,8 @@ PROPS = {
                 "a model of CometBFT's validator set (removal of an absent validator or an empty result is an error) and compares with the stored set and count",
         "trusted_base": _TRUSTED + ["CometBFT's ValidatorSet.UpdateWithChangeSet is a 10-line Lean model written from its specification"],
         "assumptions": _ASSUME + [
-            "the upgrade block that migrates the pre-Aspen set to per-validator storage (handle_aspen_upgrade) is not driven by this harness; both storage "
-            "formats are exercised separately",
+            "every 4th session (`upg`) starts on the pre-Aspen storage, crosses the Aspen upgrade at height 4 (handle_aspen_upgrade, price-feed genesis) and "
+            "Blackburn at height 6 through App::pre_execute_transactions, with validator updates before, at and after the migration",
             "the full property is false of the unchanged code in two corners, recorded as open findings F7a / F7b"],
         "explanation": "theorem: the returned batch applied as a map to CometBFT's set equals the stored set for every update sequence; counterexamples "
                        "for applicability; monitor replays the batches through the CometBFT model",
